@@ -133,6 +133,7 @@ fn shape_fields(name: &str) -> Vec<(&'static str, bool)> {
         "S8" => S8Ops::fields(),
         "Q5" => Q5Ops::fields(),
         "W20" => W20Ops::fields(),
+        "W72" => W72Ops::fields(),
         _ => R4Ops::fields(),
     }
 }
@@ -722,18 +723,18 @@ fn gen_tlw(r: &mut Rng, n: usize, out: &mut dyn Write) {
 }
 
 fn gen_tl(r: &mut Rng, n: usize, out: &mut dyn Write) {
-    for s in ["S8", "Q5", "R4", "W20"] {
+    for s in ["S8", "Q5", "R4", "W20", "W72"] {
         writeln!(out, "{}", shape_line(s)).unwrap();
     }
     for i in 0..n {
-        let shape = if r.chance(1, 14) { "W20" } else { match r.below(10) { 0..=6 => "S8", 7 | 8 => "Q5", _ => "R4" } };
+        let shape = if r.chance(1, 40) { "W72" } else if r.chance(1, 14) { "W20" } else { match r.below(10) { 0..=6 => "S8", 7 | 8 => "Q5", _ => "R4" } };
         let exact = i % 2 == 0;
         let tame = r.chance(3, 4);
         let tl = gen_timeline(r, shape, exact, tame);
         let fields = shape_fields(shape);
         let anim_idx: Vec<usize> = fields.iter().enumerate().filter(|(_, f)| f.1).map(|(i, _)| i).collect();
         writeln!(out, "reset").unwrap();
-        for s in ["S8", "Q5", "R4", "W20"] {
+        for s in ["S8", "Q5", "R4", "W20", "W72"] {
             writeln!(out, "{}", shape_line(s)).unwrap();
         }
         if exact { writeln!(out, "# exactcfg").unwrap(); }
@@ -897,6 +898,14 @@ fn gen_tl(r: &mut Rng, n: usize, out: &mut dyn Write) {
                 writeln!(out, "upd {} {} {}", rslot, b(delay + 2.0 * d * (1.0 - x * 0.5)), tgt).unwrap();
                 writeln!(out, "# eq C03 1 3").unwrap();
             }
+            // C09 on the same pair: evaluating another timeline at the same instant in between changes nothing — a timeline
+            // evaluated twice at one time gives one result (the two have different positions at delay + 1.25 d)
+            let (t1, t2) = (delay + d * 1.25, delay + d * 0.5);
+            writeln!(out, "upd {} {} {}", rslot, b(t1), tgt).unwrap();
+            writeln!(out, "upd {} {} {}", fslot, b(t1), tgt).unwrap();
+            writeln!(out, "upd {} {} {}", fslot, b(t2), tgt).unwrap();
+            writeln!(out, "upd {} {} {}", fslot, b(t1), tgt).unwrap();
+            writeln!(out, "# eq C09 1 3").unwrap();
         }
         // C02 exact keyframe hits (dyadic configurations only; built-in/endpoint-fixing easings only)
         if tl.exact && !tl.kfs.is_empty() {
@@ -967,6 +976,8 @@ fn gen_merged(r: &mut Rng, n: usize, out: &mut dyn Write) {
                 }
             }
             if r.chance(1, 3) && c > 0 { tl.dur = comps[0].dur; }
+            // … or a cycle duration one or two ulps away from the first component's: "agree" means equal, not close
+            else if r.chance(1, 4) && c > 0 { tl.dur = Some(nudge(comps[0].dur_v(), r.pick(&[1i32, -1, 2, -2]))); }
             writeln!(out, "{}", tl.line(10 + c)).unwrap();
             comps.push(tl);
         }
